@@ -512,13 +512,93 @@ func (in *Interp) blobOf(data SliceV) (Iface, bool) {
 			return in.blobList[n].tree, true
 		}
 	}
+	// syntax check with the real decoder, then a token walk that keeps the members of every object in document
+	// order (encoding/json assigns struct fields in that order: of two members that match one field - names
+	// differing in case - the later one wins; a repeated name counts at its last position)
 	var g interface{}
 	dec := json.NewDecoder(strings.NewReader(s))
 	dec.UseNumber()
 	if err := dec.Decode(&g); err != nil {
 		return Iface{}, false
 	}
-	return in.goToTree(g), true
+	dec = json.NewDecoder(strings.NewReader(s))
+	dec.UseNumber()
+	tree, ok := in.tokensToTree(dec)
+	if !ok {
+		return in.goToTree(g), true
+	}
+	return tree, true
+}
+
+// tokensToTree builds the tree of the next JSON value of the token stream.
+func (in *Interp) tokensToTree(dec *json.Decoder) (Iface, bool) {
+	jt := in.jt()
+	tok, err := dec.Token()
+	if err != nil {
+		return Iface{}, false
+	}
+	switch x := tok.(type) {
+	case json.Delim:
+		switch x {
+		case '[':
+			var elems []Value
+			for dec.More() {
+				e, ok := in.tokensToTree(dec)
+				if !ok {
+					return Iface{}, false
+				}
+				elems = append(elems, e)
+			}
+			if _, err := dec.Token(); err != nil {
+				return Iface{}, false
+			}
+			if elems == nil {
+				elems = []Value{}
+			}
+			return Iface{T: jt.slice, V: SliceV{B: &Backing{E: elems}, Len: len(elems), Cap: len(elems)}}, true
+		case '{':
+			in.nextMap++
+			m := &MapV{KT: jt.str, VT: jt.iface, ID: in.nextMap}
+			for dec.More() {
+				kt, err := dec.Token()
+				if err != nil {
+					return Iface{}, false
+				}
+				k, isStr := kt.(string)
+				if !isStr {
+					return Iface{}, false
+				}
+				v, ok := in.tokensToTree(dec)
+				if !ok {
+					return Iface{}, false
+				}
+				// a repeated name: the member counts at its last position with its last value
+				kept := m.Entries[:0]
+				for _, e := range m.Entries {
+					if e.K.(*Str).Conc() != k {
+						kept = append(kept, e)
+					}
+				}
+				m.Entries = kept
+				m.seq++
+				m.Entries = append(m.Entries, &MapEntry{K: concStr(in.tf, k), V: v, Seq: m.seq})
+			}
+			if _, err := dec.Token(); err != nil {
+				return Iface{}, false
+			}
+			return Iface{T: jt.mapT, V: m}, true
+		}
+		return Iface{}, false
+	case nil:
+		return Iface{}, true
+	case string:
+		return Iface{T: jt.str, V: concStr(in.tf, x)}, true
+	case bool:
+		return Iface{T: jt.boolean, V: in.tf.Bool(x)}, true
+	case json.Number:
+		return Iface{T: jt.number, V: concStr(in.tf, string(x))}, true
+	}
+	return Iface{}, false
 }
 
 func (in *Interp) goToTree(g interface{}) Iface {
